@@ -716,7 +716,10 @@ class TrajectoryStore:
         # data schema, which we check for each new trajectory.
         if len(self._trajectories) > 0:
             proto = next(iter(self._trajectories.values()))
-            if hash(trajectory) != hash(proto):
+            # Compare the field definitions themselves: the container hash
+            # also covers the merged field set *name*, which depends on the
+            # order in which the field sets happened to be added.
+            if trajectory._data_dictionary != proto._data_dictionary:
                 raise ValueError(
                     'All trajectories in a TrajectoryStore must have the same '
                     'data fields'
